@@ -3,3 +3,6 @@ import ESV.Base.Dec
 import ESV.Base.Dict
 import ESV.SourceMap.Model
 import ESV.Props.C14
+import ESV.Pyg.Model
+import ESV.Pyg.Lemmas
+import ESV.Props.C17
